@@ -94,7 +94,7 @@ def deployments(which):
   out = []
   for mode, db in which:
     k = (mode, db)
-    if k not in _DEPS:
+    if k not in _DEPS or getattr(_DEPS[k], 'poisoned', False):
       _DEPS[k] = Deployment(mode, db)
     out.append(_DEPS[k])
   return out
@@ -139,7 +139,19 @@ def _view(x):
 
 
 def run_op(dep, op):
-  """Executes one client-level operation. Returns ('ok', view) or ('exc', class)."""
+  """Executes one client-level operation under a deadline. Returns ('ok', view) or ('exc', class)."""
+  from vfw import svc
+  if getattr(dep, 'poisoned', False):
+    return ('exc', 'DOES-NOT-RETURN')     # an earlier call of this program never returned; the server is not asked again
+  try:
+    with svc.deadline():
+      return _run_op(dep, op)
+  except svc.Wedged:
+    dep.poisoned = True                   # its server may hold locks for ever: a fresh deployment is built for the next program
+    return ('exc', 'DOES-NOT-RETURN')
+
+
+def _run_op(dep, op):
   from vfw import svc
   from vizier import pyvizier as vz
   from vizier._src.service import clients, study_pb2, vizier_client
@@ -315,6 +327,8 @@ def run_program(dep, prog):
 def promise(op, outcome, study_exists, study_active):
   """Returns a clause if a documented promise is broken by this outcome, else None."""
   kind, val = outcome
+  if kind == 'exc' and val == 'DOES-NOT-RETURN':
+    return 'promise:call-returns'
   if op[0] == 'get_trial' and op[1] == 9 and study_exists:
     return None if (kind == 'exc' and val == 'ResourceNotFoundError') else 'promise:get_trial-missing-raises-ResourceNotFoundError'
   if op[0] == 'from_resource_name' and op[1] == 'missing':
@@ -344,6 +358,7 @@ def expand(task):
     study_active = study_exists and dict(st['studies'][0])['state'] in ('ACTIVE', 'STATE_UNSPECIFIED')
     for op in task['ops']:
       prog = list(path) + [op]
+      deps = deployments([tuple(d) for d in task['deployments']])     # a deployment whose server got wedged is replaced
       results = [run_program(d, prog) for d in deps]
       vios = []
       o0, s0 = results[0]
